@@ -14,6 +14,7 @@ import EasyMl.Lemmas.PartitionGrid
 import EasyMl.Lemmas.LiveView
 import EasyMl.Lemmas.MatrixEq
 import EasyMl.Lemmas.InteropNames
+import EasyMl.Lemmas.PartViews
 
 namespace EasyMl.C12
 open EasyMl EasyMl.Spec EasyMl.Fallible EasyMl.MatrixView
@@ -456,6 +457,82 @@ theorem part_write_frame (m : MatrixMeta) (hm : m.Inv) (rp cp : List Nat)
       rw [hp] at hr ⊢
       exact ofSlices_get_mem_cells _ _ _ _ _ _ _ _ hr
     exact partition_disjoint m hm rp cp parts h k k' hk hk' hkk o hx hx'
+
+/-! ## Views over the parts of a partition -/
+
+/-- **The part leaf.**  `MExpr.part rows columns rp cp kr kc` — the `MatrixPart` at grid position
+    `(kr, kc)`, i.e. `parts[kr·(cp.len()+1) + kc]`, as a source of further views — has the size of
+    the `kr`-th row slice by the `kc`-th column slice (`0×0` when either is empty) and its index
+    `(i, j)` designates matrix cell `(r₀+i)·columns + c₀+j`.  Being an `MExpr` leaf,
+    `mview_get_eq_spec`, `mview_get_some_iff`, `mview_unchecked_eq_checked`, `cell_equations`
+    and `layout_eq_spec` hold for every composition of ranges, reversals, maps and tensor round
+    trips **over a part** as well (its `data_layout` is row-major). -/
+theorem part_leaf_cell (rows columns : Nat) (rp cp : List Nat) (kr kc i j : Nat) :
+    let r := (diffs (rp ++ [rows]) 0).getD kr (0, 0)
+    let c := (diffs (cp ++ [columns]) 0).getD kc (0, 0)
+    (MExpr.part rows columns rp cp kr kc).size = normSize r.2 c.2 ∧
+    (MExpr.part rows columns rp cp kr kc).cell i j =
+      (if i < (normSize r.2 c.2).1 ∧ j < (normSize r.2 c.2).2 then
+        some ((r.1 + i) * columns + c.1 + j) else none) ∧
+    (MExpr.part rows columns rp cp kr kc).layoutSpec = .rowMajor :=
+  ⟨rfl, rfl, rfl⟩
+
+/-- the model builds it from `partition` itself: the part the code hands out at that position
+    answers exactly these cells -/
+theorem part_leaf_is_partition_part (rows columns : Nat) (rp cp : List Nat) (kr kc : Nat)
+    (hle : (MExpr.part rows columns rp cp kr kc).LeavesOk) :
+    ∃ parts, partition ⟨rows * columns, rows, columns⟩ rp cp = .ok parts ∧
+      ∃ hk : kr * (cp.length + 1) + kc < parts.length,
+        ∀ i j, parts[kr * (cp.length + 1) + kc].get i j =
+          .ok ((MExpr.part rows columns rp cp kr kc).cell i j) :=
+  part_getter rows columns rp cp kr kc hle
+
+/-- **No view merges cells.**  Two indexes of a composition (over a matrix, a column-major source
+    or a part) that designate the same cell are the same index: a write through a view changes
+    exactly one cell of that view. -/
+theorem view_cell_injective (e : MExpr) (hle : e.LeavesOk) (i j i' j' o : Nat)
+    (h : e.cell i j = some o) (h' : e.cell i' j' = some o) : i = i' ∧ j = j' :=
+  e.cell_injective hle i j i' j' o h h'
+
+/-- **Views over different parts never alias.**  If a cell is designated by some index of a
+    composition over part `(kr, kc)` and by some index of a composition over part `(kr', kc')` of
+    the same partition, the two parts are the same part — whatever ranges, reversals and round
+    trips were stacked on either. -/
+theorem views_over_parts_never_alias (e e' : MExpr) (rows columns : Nat) (rp cp : List Nat)
+    (kr kc kr' kc' : Nat)
+    (hb : e.base = .part rows columns rp cp kr kc) (hb' : e'.base = .part rows columns rp cp kr' kc')
+    (hle : e.LeavesOk) (hle' : e'.LeavesOk) (i j i' j' o : Nat)
+    (h : e.cell i j = some o) (h' : e'.cell i' j' = some o) : kr = kr' ∧ kc = kc' := by
+  obtain ⟨a, b, hab⟩ := e.cell_in_base i j o h
+  obtain ⟨a', b', hab'⟩ := e'.cell_in_base i' j' o h'
+  rw [hb] at hab
+  rw [hb'] at hab'
+  have hl := e.leavesOk_base hle
+  have hl' := e'.leavesOk_base hle'
+  rw [hb] at hl
+  rw [hb'] at hl'
+  obtain ⟨parts, hp, hk, hget⟩ := part_getter rows columns rp cp kr kc hl
+  obtain ⟨parts', hp', hk', hget'⟩ := part_getter rows columns rp cp kr' kc' hl'
+  rw [hp] at hp'
+  simp only [Outcome.ok.injEq] at hp'
+  subst hp'
+  have hinv : MatrixMeta.Inv ⟨rows * columns, rows, columns⟩ := ⟨rfl, hl.1.1, hl.1.2.1, hl.1.2.2⟩
+  have := part_write_frame _ hinv rp cp parts hp _ _ hk hk' a b a' b' o
+    (by rw [hget, hab]) (by rw [hget', hab'])
+  exact grid_index_inj (cp.length + 1) kr kc kr' kc' (by have := hl.2.2.2; omega)
+    (by have := hl'.2.2.2; omega) this.1
+
+/-- Non-vacuity: a 4×5 matrix cut after rows 1, 3 and column 2; over the part at grid position
+    (1, 1) (rows 1–2, columns 2–4) a reversed range designates cell 13, which no index of a
+    view over part (1, 0) does. -/
+example :
+    let p := MExpr.part 4 5 [1, 3] [2] 1 1
+    let e := MExpr.reverse (MExpr.range p ⟨0, 2⟩ ⟨1, usizeMax⟩) true false
+    p.LeavesOk ∧ p.size = (2, 3) ∧ e.size = (2, 2) ∧ e.base = p ∧ e.cell 0 0 = some 13 ∧
+    (MExpr.part 4 5 [1, 3] [2] 1 0).cell 1 1 = some 11 ∧
+    (MExpr.part 4 5 [1, 3] [2] 2 1).size = (1, 3) ∧ (MExpr.part 4 5 [1, 3] [5] 0 1).size = (0, 0) := by
+  refine ⟨by simp only [MExpr.LeavesOk, PartitionAccepted]; decide, by decide, by decide, rfl,
+    by decide, by decide, by decide, by decide⟩
 
 /-- `partition_quadrants(row, column)` is `partition(&[row], &[column])`: four parts. -/
 theorem partition_quadrants_eq (m : MatrixMeta) (hm : m.Inv) (row column : Nat)
